@@ -1,4 +1,5 @@
 import PyxisVerif.Props.C07
+import PyxisVerif.Props.CaseLift2
 import PyxisVerif.Props.Exec
 #print axioms PyxisVerif.C07.addFunctions_spec
 #print axioms PyxisVerif.C07.every_public_reexposed
@@ -13,3 +14,7 @@ import PyxisVerif.Props.Exec
 #print axioms PyxisVerif.Exec.built_type_forwarders
 #print axioms PyxisVerif.Exec.case_forwarders
 #print axioms PyxisVerif.Exec.fieldOffsets_compiled
+#print axioms PyxisVerif.C07.case_addFunctions_spec
+#print axioms PyxisVerif.C07.case_every_public_reexposed
+#print axioms PyxisVerif.C07.case_private_not_reexposed
+#print axioms PyxisVerif.C07.case_conversions_emitted
